@@ -83,6 +83,10 @@ type Scen struct {
 	// both send queues drained; QuiesceWait bounds the wait for the drain.
 	Quiesce     time.Duration
 	QuiesceWait time.Duration
+	// WriteErrC2S / WriteErrS2C > 0: the k-th transport write of the client /
+	// the server after the handshake fails once with a transient error (the
+	// packet is not sent, the link keeps working).
+	WriteErrC2S, WriteErrS2C int
 }
 
 // ScenResult is everything observed in a scenario run.
@@ -224,6 +228,12 @@ func runScenBody(sc *Scen, h Hooks, res *ScenResult, settle func()) {
 	res.FaultStart = fs.Sub(t0)
 	p.C2S.SetDecider(sc.FaultC2S.Decider(fs))
 	p.S2C.SetDecider(sc.FaultS2C.Decider(fs))
+	if sc.WriteErrC2S > 0 {
+		p.C2S.FailSendsAfter(sc.WriteErrC2S-1, 1, fmt.Errorf("write: transient transport error (injected)"))
+	}
+	if sc.WriteErrS2C > 0 {
+		p.S2C.FailSendsAfter(sc.WriteErrS2C-1, 1, fmt.Errorf("write: transient transport error (injected)"))
+	}
 
 	fa, doneA := RunFlow(p.C, p.S, FlowSpec{Dir: 'a', Count: len(sc.SizesA), Size: sizeFn(sc.SizesA), Gap: gapFn(sc.GapsA), RecvGap: gapFn(sc.RecvGapsA)}, t0)
 	fb, doneB := RunFlow(p.S, p.C, FlowSpec{Dir: 'b', Count: len(sc.SizesB), Size: sizeFn(sc.SizesB), Gap: gapFn(sc.GapsB), RecvGap: gapFn(sc.RecvGapsB)}, t0)
